@@ -151,10 +151,16 @@ def box_around_point(p, dist):
         # No maximal distance (e.g. a matcher without max_dist): the box is the entire globe
         return -90.0, -180.0, 90.0, 180.0
     latr, lonr = radians(lat), radians(lon)
-    # diag_dist = sqrt(2 * dist ** 2)
-    diag_dist = dist
-    lat_t, lon_r = destination_radians(latr, lonr, radians(45), diag_dist)
-    lat_b, lon_l = destination_radians(latr, lonr, radians(225), diag_dist)
+    # Smallest box that contains all points within distance dist (a spherical cap): the latitude
+    # extremes are reached due north/south, the longitude extremes where the meridian is tangent to the cap.
+    # (Two destinations at distance dist in the diagonal directions only give a box of half-width dist/sqrt(2).)
+    d = dist / earth_radius
+    lat_t, lat_b = latr + d, latr - d
+    if cos(latr) > sin(d) and d < math.pi / 2:
+        dlon = asin(sin(d) / cos(latr))
+    else:
+        dlon = math.pi  # A pole lies within the distance: all longitudes
+    lon_r, lon_l = lonr + dlon, lonr - dlon
     lat_t, lon_r = degrees(lat_t), degrees(lon_r)
     lat_b, lon_l = degrees(lat_b), degrees(lon_l)
     return lat_b, lon_l, lat_t, lon_r
